@@ -587,15 +587,29 @@ pub fn run_c06_b(ctx: &Ctx) -> Outcome {
     let n_cases = ctx.vol(150, 3000);
     let mut cases = Vec::new();
     for i in 0..n_cases {
-        cases.push((gen_c06_ops(&mut rng, 12), (i % 3) as u8));
+        let mut ops = gen_c06_ops(&mut rng, 12);
+        // every fourth case: a speculative execution policy is configured as well and the (then all
+        // non-idempotent) requests are answered slower than its interval - it must stay out of the way
+        let spec = if i % 4 == 3 { Some((2usize, 15u64)) } else { None };
+        if spec.is_some() {
+            for o in ops.iter_mut() {
+                o.idempotent = false;
+                if let Some(last) = o.script.last_mut() {
+                    if *last == Att::Ok && rng.chance(2, 3) {
+                        *last = Att::OkAfter(50);
+                    }
+                }
+            }
+        }
+        cases.push((ops, (i % 3) as u8, spec));
     }
     for chunk in cases.chunks(6) {
         let res: Vec<(Vec<Op>, u8, CaseOut)> = rt.block_on(async {
             let mut js = Vec::new();
-            for (ops, policy) in chunk.iter().cloned() {
+            for (ops, policy, spec) in chunk.iter().cloned() {
                 js.push(tokio::spawn(async move {
                     // sequential: a scripted connection kill must not hit another request's attempt
-                    let r = run_ops(ops.clone(), policy, None, true).await;
+                    let r = run_ops(ops.clone(), policy, spec, true).await;
                     (ops, policy, r)
                 }));
             }
@@ -609,6 +623,9 @@ pub fn run_c06_b(ctx: &Ctx) -> Outcome {
         });
         for (ops, policy, r) in &res {
             judge_c06(&mut out, ops, *policy, r);
+            if ops.iter().any(|o| matches!(o.script.last(), Some(Att::OkAfter(_)))) {
+                out.class("speculative-policy-configured:slow-answer-to-non-idempotent");
+            }
         }
         if fw::stop_early(&mut out) {
             out.note("stopped_early_after_violations", json!(true));
@@ -616,7 +633,8 @@ pub fn run_c06_b(ctx: &Ctx) -> Outcome {
         }
     }
     for c in ["api:QueryUnpaged", "api:ExecuteUnpaged", "api:Batch", "api:QuerySinglePage", "api:QueryIter", "api:ExecuteIter", "policy:default", "policy:downgrading", "policy:fallthrough",
-        "non-idempotent:resent-after-proof-of-non-application", "non-idempotent:stopped", "decision:retry-same-target", "decision:retry-next-target"] {
+        "non-idempotent:resent-after-proof-of-non-application", "non-idempotent:stopped", "decision:retry-same-target", "decision:retry-next-target",
+        "speculative-policy-configured:slow-answer-to-non-idempotent"] {
         out.require_class(c);
     }
     out
